@@ -3,7 +3,7 @@
    nat, positive, Z, Q stay the extracted inductive types. *)
 From Coq Require Import Extraction ExtrOcamlBasic.
 From Coq Require Import QArith.
-From Model Require Import Base Dense Sparse ProcessSetM NumInst LU Rosenbrock BackwardEulerM ErrorNorm RateConst ValueSem Errors JitModel.
+From Model Require Import Base Dense Sparse ProcessSetM NumInst LU Rosenbrock BackwardEulerM ErrorNorm RateConst ValueSem Errors JitModel Assembly MarkowitzReal BuilderMap.
 
 Extraction Language OCaml.
 Set Extraction KeepSingleton.
@@ -25,4 +25,5 @@ Extraction "model.ml"
   Errors.expected Errors.fault_of_id
   JitModel.jit_add_forcing JitModel.jit_sub_jacobian JitModel.jit_decompose JitModel.jit_lin_solve
   JitModel.jit_lu_guard JitModel.jit_builder_outcome JitModel.jit_rosenbrock_guard
+  Assembly.map_lookup MarkowitzReal.markowitz_real BuilderMap.builder_species_map
   Qred Qplus Qmult Qminus Qdiv Qcompare Z.of_nat Z.to_nat Z.compare Pos.to_nat.
